@@ -282,3 +282,8 @@ func (m *xdsResourceManager) VerifClosed() bool {
 func (m *xdsResourceManager) VerifSetConnectBackoff(b backoff.BackOff) {
 	m.client.connectBackoff = b
 }
+
+// VerifLockClient / VerifUnlockClient hold the client's lock, so that a caller of Watch (a lookup
+// registering its notifier, the cleaner) stalls at that call for as long as the script wants.
+func (m *xdsResourceManager) VerifLockClient()   { m.client.mu.Lock() }
+func (m *xdsResourceManager) VerifUnlockClient() { m.client.mu.Unlock() }
